@@ -1,4 +1,5 @@
 import GohtVerif.Proofs.Lemmas.SourceMap
+import GohtVerif.Proofs.Lemmas.WriterBounds
 import GohtVerif.Model.Compile
 /-! # C16 — the position map is in-bounds and its two directions are mutually inverse
 
@@ -57,6 +58,15 @@ theorem roundtrip_needs_disjointness :
 
 -- PLANNED: target_runs_disjoint — ∀ input, allDisj disjT (compile input).frags (append-only writer invariant through the emitter)
 -- PLANNED: source_runs_disjoint_ascii — ∀ ASCII input, allDisj disjS (compile input).frags (token slices are disjoint)
--- PLANNED: bounds — every run lies within its line in both texts (writer position theorem + lexer position theorem)
+/-- **Bounds on the generated side** — a run registered for a one-line chunk starts at the UTF-16
+length of the generated line as it stood, ends exactly at the end of the line as it then is, and stays
+inside the line whatever is written after it (for text whose lines are well-formed UTF-8). -/
+theorem target_run_in_bounds (g : G) (text s more : GoStr) (hpos : g.pos = posOf text)
+    (hvalid : ValidUtf8 (lastLineOf text)) (hvalid2 : ValidUtf8 (lastLineOf text ++ s)) (hs : (10 : UInt8) ∉ s) :
+    (g.write s).2.frm.col - 1 = (utf16Len (lastLineOf text) : Nat) ∧
+    utf16Len (lastLineOf text) + utf16Len s ≤ utf16Len (lastLineOf text ++ s ++ more) :=
+  ⟨(run_ends_at_line_end g text s hpos hvalid hs).1, run_within_final_line text s more hvalid hvalid2⟩
+
+-- PLANNED: bounds on the template side (lexer position theorem); multi-line chunks on the generated side
 
 end GL.C16
